@@ -142,7 +142,7 @@ def _case(draw, tier="quick"):
 
 def parts(tier):
     n = 3_000 if tier == "quick" else 60_000
-    return [Part("generated", "given", n=n, strategy=lambda: widened(_case(tier), light=True))]
+    return [Part("generated", "given", n=n, strategy=lambda: widened(_case(tier), light=True, zero_only=lambda c: c["family"].endswith("+huge-row")))]
 
 
 def _permuted_spec(spec, pi):
